@@ -260,7 +260,7 @@ def run(ctx):
                     # the kernel forms the distance from float32 angles (law of sines); for a detector
                     # inside the decay range the distance can be short and the small central angle is a
                     # difference of numbers near pi/2: relative error ~ eps32 (R + z) / d, twice that squared
-                    tol_r = 1e-3 if h >= 33.0 else 1e-3 + 8e-7 * (RADE + a) / max(abs(path_to_altitude(h, bc) - sa), 1e-6)
+                    tol_r = 1e-3 if h >= 33.0 else 1e-3 + 3e-6 * (RADE + a) / max(abs(path_to_altitude(h, bc) - sa), 1e-6)
                     ctx.track_worst("inv_square_ratio_rel", abs(r / want - 1) / tol_r * 1e-3, 1e-3)
                     if not (abs(r / want - 1) <= tol_r and float(c1) == float(c0)):
                         ctx.violation("inv-square", f"detector {h} km vs 525 km at beta={math.degrees(b):.3f} deg, alt={a:.3f} km: density ratio {r!r}, squared distance ratio {want!r}; angles {float(c1)!r} vs {float(c0)!r}", {"det": h, "beta": b, "alt": a, "E": e})
